@@ -3,7 +3,7 @@ import ast
 from collections import namedtuple
 
 from .model import AnalysisError, node_src, is_self_attr, call_name
-from .paths import Interp, Domain, Env, TOP, NONE, Const, Exc, ORD, fmt_trace, Opaque
+from .paths import Interp, Domain, Env, TOP, NONE, Const, Exc, ORD, fmt_trace, Opaque, FuncRef
 from .report import walk_no_nested
 from . import rules_C07
 
@@ -37,6 +37,15 @@ class ReaderDomain(Domain):
         self.script = script
         self.miss_value = miss_value
         self.other_cache_use = []
+
+    def name_load(self, name, state, node=None):
+        if state.has(name):
+            return state.get(name)
+        if name in self.fn.module.functions or name in self.prog.module("pymemcache/fallback.py").functions:
+            return FuncRef(name)  # a module-level predicate passed around as a value
+        if name in ("bool",):
+            return Opaque("builtin:" + name)
+        return TOP
 
     def attr_load(self, objval, node, state):
         if is_self_attr(node, "caches"):
@@ -83,6 +92,15 @@ class ReaderDomain(Domain):
             st = state.set("calls", calls + (rec,))
             val = {"hit": Opaque("hit-value"), "hit-falsy": Const(b"")}.get(answer, self.miss_value)
             return [("ok", val, st)]
+        if isinstance(fval, FuncRef):
+            f = self.prog.module("pymemcache/fallback.py").functions.get(fval.name)
+            if f is not None:
+                res = self.inline(node, f, args, kwargs, state)
+                if res is not None:
+                    return res
+        if fval == Opaque("builtin:bool") and len(args) == 1:
+            t = self.truth(args[0], state)
+            return [("ok", Const(t) if t is not None else TOP, state)]
         if name in ("reversed", "sorted", "list", "tuple", "iter") and args and args[0] == Opaque("caches"):
             self.other_cache_use.append(node)
             return [("ok", TOP, state)]
